@@ -114,16 +114,22 @@ Definition render_line (line : N) (mi : N) (ind spaces err : str) (il : N * str)
   then ind ++ tl ++ [NL] ++ ind ++ spaces ++ [94; NL] ++ ind ++ spaces ++ err ++ [NL]
   else ind ++ tl ++ [NL].
 
-(** [message_for_line] with colours off (the CLI is run with its output piped) *)
+(** "path:line:column\n", 1-based as VSCode counts *)
+Definition location_line (path : str) (p : pos) : str :=
+  path ++ [58] ++ dec (p_line p + 1) ++ [58] ++ dec (p_col p + 1) ++ [NL].
+
+(** [message_for_line] with colours off (the CLI is run with its output piped).  When no source line can be
+    shown (the line does not exist, or only blank lines surround it) the location is still printed, followed by
+    the bare message — without indentation even for additional information. *)
 Definition message_for_line (path src : str) (p : pos) (err : str) (additional : bool) : str :=
   let rel := firstn 5%nat (skipn (N.to_nat (p_line p - 2)) (enumerate_from 0 (lines src))) in
-  if negb (existsb (fun il => N.eqb (fst il) (p_line p)) rel) then err
+  if negb (existsb (fun il => N.eqb (fst il) (p_line p)) rel) then location_line path p ++ err
   else match min_indent rel with
-       | None => err
+       | None => location_line path p ++ err
        | Some mi =>
            let ind := if additional then INDENT else [] in
            let spaces := repeat 32%N (N.to_nat (p_col p - mi)) in
-           ind ++ path ++ [58] ++ dec (p_line p + 1) ++ [58] ++ dec (p_col p + 1) ++ [NL]
+           ind ++ location_line path p
            ++ concat (map (render_line (p_line p) mi ind spaces err) rel)
        end.
 
@@ -686,12 +692,13 @@ Inductive outcome :=
     (* a Rust panic inside run_cli: [log] is what eprintln! wrote before it; the panic message follows on stderr *)
 
 (** The exit status of the process.  main() spawns run_cli as a detached task of async-executor and drives
-    the executor; async-task catches a panic of the task's future (RawTask::run wraps the poll in
-    catch_unwind) and, the task being detached, drops it: [drive] returns, main returns, the status is 0. *)
+    the executor; async-task catches a panic of the task's future and drops it, [drive] returns, and main then
+    ends with process::exit(101) (run_cli itself always ends with process::exit, so falling out of [drive]
+    means that the task panicked). *)
 Definition exit_status (o : outcome) : N :=
   match o with
   | Exit code _ _ _ => code
-  | Crash _ _ => 0
+  | Crash _ _ => 101
   end.
 
 (** run_cli: exit code and CliOutput::command_error from the result of run_cli_impl;
